@@ -11,6 +11,8 @@
 (*   Locality, ReadsOnly   a single-cell change alters outputs only inside the 3x3         *)
 (*                         neighbourhood of that cell (only at cells whose kernel reads it)*)
 (*   OffsetInv             adding a constant to all elevations changes nothing             *)
+(*   ScaleLaw              multiplying all elevations by k > 0: aspect unchanged, tan(slope),*)
+(*                         curvature and the hillshade gradient scale by k                 *)
 (*   FlatLaw               flat window => slope 0, aspect -1, curvature 0, no shading tilt *)
 (*   Ranges                tan^2 >= 0 finite (slope in [0,90)), the aspect vector is       *)
 (*                         non-zero, its compass sector agrees with the code's three-way   *)
@@ -90,6 +92,25 @@ ReadsOnly == [][ReadsOnlyA]_g
 OffsetInv ==
   \A k \in KS : LET gk == AddK(g, H, W, k) IN
      \A rc \in InteriorCells(H, W) : \A fn \in Fns : At(fn, gk, H, W, rc[1], rc[2]) = At(fn, g, H, W, rc[1], rc[2])
+
+\* ---------------------------------------------------------------- positive scaling
+\* multiplying every elevation by k > 0: the aspect vector is multiplied by k (same direction, same sector, flat
+\* iff flat), tan^2(slope) by k^2, the curvature and the hillshade gradient by k, NaN cells stay NaN.
+\* (The SCALE family of the replay uses k = 2^-24, 2^-30, 2^20, exact in floating point.)
+MulK(gr, k) == [r \in Rows |-> [c \in Cols |-> IF IsNaN(gr[r][c]) THEN NAN ELSE k * gr[r][c]]]
+ScaleLaw ==
+  \A k \in {2, 3, 8} : LET gk == MulK(g, k) IN
+    \A rc \in InteriorCells(H, W) :
+      LET r == rc[1]  c == rc[2]
+          s0 == SlopeAt(g, H, W, r, c, CX, CY, MUT)   s1 == SlopeAt(gk, H, W, r, c, CX, CY, MUT)
+          a0 == AspectAt(g, H, W, r, c, MUT)          a1 == AspectAt(gk, H, W, r, c, MUT)
+          k0 == CurvAt(g, H, W, r, c, CX, CY, MUT)    k1 == CurvAt(gk, H, W, r, c, CX, CY, MUT)
+          h0 == HillAt(g, H, W, r, c, MUT)            h1 == HillAt(gk, H, W, r, c, MUT)
+      IN /\ s1 = <<k * k * s0[1], s0[2]>>
+         /\ a1 = <<k * a0[1], k * a0[2], a0[3]>>
+         /\ a0[3] = 2 => Sector16(a1[1], a1[2]) = Sector16(a0[1], a0[2])
+         /\ k1 = <<k * k0[1], k0[2]>>
+         /\ h1 = <<k * h0[1], k * h0[2], h0[3]>>
 
 \* ---------------------------------------------------------------- flat windows
 FlatAt(r, c) == ~IsNaN(g[r][c]) /\ \A d \in Off8 : g[r + d[1]][c + d[2]] = g[r][c]
